@@ -207,8 +207,13 @@ class C13Oracle(Oracle):
             r = out.result
             if r is recv or any(r is a for a in out.args) or any(r is a for a in out.kwargs.values()):
                 self.fail("no-mutation", name, "returned-receiver-or-argument", {"step": brief})
-            if any(r is o for o in w.heap.values() if o is not r) and out.step.get("out") is None:
+            outh = out.step.get("out")
+            if _is_obj(r) and any(r is o for hh, o in w.heap.items() if hh != outh):
                 self.fail("no-mutation", name, "returned-existing-object", {"step": brief})
+
+
+def _is_obj(r):
+    return isinstance(r, (TextgridTier, Textgrid))
 
 
 def _masked(tgobs, idxs):
@@ -448,6 +453,9 @@ def tg_catalogue(g, w, h, tiers, tgs, wide, fileno, files_on):
                 variants.append(("max-below-last-entry",
                                  {"a": [g.pick(FORMATS), True],
                                   "k": {"maxTimestamp": last - 0.5, "reportingMode": "silence"}}))
+        if its:
+            variants.append(("bad-minimumIntervalLength",
+                             {"a": [g.pick(FORMATS), True], "k": {"minimumIntervalLength": "short", "reportingMode": "silence"}}))
         if not valid:
             variants.append(("invalid-tg-error-mode", {"a": [g.pick(FORMATS), rng.random() < 0.5],
                                                        "k": {"reportingMode": "error"}}))
